@@ -112,6 +112,10 @@ structure Prims where
   aseal : Bytes → Bytes → Bytes → Bytes
   /-- XChaCha20-Poly1305 `Open(key, nonce, ciphertext)` -/
   aopen : Bytes → Bytes → Bytes → Option Bytes
+  /-- whether the private half of a key object belongs to the public key it reports (`pub`).
+  `crypto.UnmarshalEd25519PrivateKey` accepts a 64-byte key whose last 32 bytes are ANY public
+  key: such a "shadow" key claims a recipient's keypair and decrypts nothing sealed to it. -/
+  genuine : Bytes → Bool := fun _ => true
 
 /-- Scalar field operations and the scalar byte codec. -/
 structure Scalars (S : Type) where
@@ -398,22 +402,31 @@ def autoIdDigestBytes : Nat := 16
 
 /-! ### UnlockEnvelope -/
 
-/-- `matchPrivKeys`: envelope keypair index ↦ first offered private key with that PEM. -/
-def matchKey (P : Prims) (env : Envelope) (privKeys : List Bytes) (ki : Nat) : Option Bytes :=
+/-- `matchPrivKeys`: envelope keypair index ↦ the offered private keys that report that PEM, in
+the order offered (nil entries of the Go slice are skipped before and are not part of the list). -/
+def matchKeys (P : Prims) (env : Envelope) (privKeys : List Bytes) (ki : Nat) : List Bytes :=
   match env.keypairs[ki]? with
-  | none => none
-  | some pem => privKeys.find? (fun sk => P.pub sk = pem)
+  | none => []
+  | some pem => privKeys.filter (fun sk => P.pub sk = pem)
+
+/-- the keys claiming one keypair are tried in order until one decrypts the ciphertext -/
+def tryKeys (P : Prims) (encCtx c : Bytes) : List Bytes → Option Bytes
+  | [] => none
+  | sk :: rest =>
+    match P.pkDec sk encCtx c with
+    | none => tryKeys P encCtx c rest
+    | some d => some d
 
 /-- try each (keypair index, ciphertext) pair of a grant until one decrypts -/
-def tryDecrypt (P : Prims) (matched : Nat → Option Bytes) (encCtx : Bytes) : List (Nat × Bytes) → Option Bytes
+def tryDecrypt (P : Prims) (matched : Nat → List Bytes) (encCtx : Bytes) : List (Nat × Bytes) → Option Bytes
   | [] => none
   | (k, c) :: rest =>
-    match matched k with
+    match tryKeys P encCtx c (matched k) with
     | none => tryDecrypt P matched encCtx rest
-    | some sk =>
-      match P.pkDec sk encCtx c with
-      | none => tryDecrypt P matched encCtx rest
-      | some d => some d
+    | some d => some d
+
+/-- the matching before the fix: only the FIRST offered key that reports a keypair's PEM is kept -/
+def firstMatchOnly (matched : Nat → List Bytes) : Nat → List Bytes := fun k => (matched k).take 1
 
 section Unlock
 variable {S : Type} [DecidableEq S]
@@ -446,7 +459,7 @@ def addShares (F : Scalars S) (dk : DedupKey S) : List Share → Acc S → Acc S
         | some v => addShares F dk rest { collected := acc.collected ++ [(id, v)], seen := acc.seen ++ [key] }
 
 /-- the grant loop: returns the collected shares and the unlocked grant indexes -/
-def collect (P : Prims) (F : Scalars S) (dk : DedupKey S) (matched : Nat → Option Bytes) (envId ctx : Bytes) :
+def collect (P : Prims) (F : Scalars S) (dk : DedupKey S) (matched : Nat → List Bytes) (envId ctx : Bytes) :
     Nat → List Grant → Acc S → List Nat → Acc S × List Nat
   | _, [], acc, unl => (acc, unl)
   | gi, g :: rest, acc, unl =>
@@ -490,7 +503,17 @@ def unlockWith (P : Prims) (F : Scalars S) (dk : DedupKey S) (ctx : Bytes) (env 
   else if env.keypairs.isEmpty then .err .noKeypairs
   else if env.contextHash ≠ P.ctxHash ctx then .err .contextMismatch
   else
-    let res := collect P F dk (matchKey P env privKeys) env.envelopeId ctx 0 env.grants {} []
+    let res := collect P F dk (matchKeys P env privKeys) env.envelopeId ctx 0 env.grants {} []
+    finish P F ctx env res.1.collected res.2
+
+/-- `UnlockEnvelope` as it was before every matching key was tried (first match takes the slot). -/
+def unlockFirstMatch (P : Prims) (F : Scalars S) (ctx : Bytes) (env : Envelope) (privKeys : List Bytes) :
+    UnlockOutcome :=
+  if env.grants.isEmpty then .err .noGrants
+  else if env.keypairs.isEmpty then .err .noKeypairs
+  else if env.contextHash ≠ P.ctxHash ctx then .err .contextMismatch
+  else
+    let res := collect P F (canonicalKey F) (firstMatchOnly (matchKeys P env privKeys)) env.envelopeId ctx 0 env.grants {} []
     finish P F ctx env res.1.collected res.2
 
 /-- `UnlockEnvelope` (the code as fixed). -/
@@ -507,12 +530,13 @@ end Unlock
 
 /-! ### what a set of offered keys can reach (specification side of C16 / C17) -/
 
-/-- some offered private key matches one of the grant's keypairs -/
+/-- some offered GENUINE private key matches one of the grant's keypairs ("the grants those keys
+can decrypt": a key object that merely reports a recipient's public key decrypts nothing) -/
 def canOpen (P : Prims) (keypairs sks : List Bytes) (idxs : List Nat) : Bool :=
   idxs.any fun k =>
     match keypairs[k]? with
     | none => false
-    | some pk => sks.any fun sk => decide (P.pub sk = pk)
+    | some pk => sks.any fun sk => P.genuine sk && decide (P.pub sk = pk)
 
 /-- the shares inside the grants that can be opened -/
 def reachShares {α : Type} (op : List Nat → Bool) : List (GrantConfig × List α) → List α
@@ -577,6 +601,14 @@ def toyPrims : Prims where
   kdf := fun c m => frame c ++ m
   aseal := fun k n p => frame k ++ frame n ++ p
   aopen := toyOpen
+
+/-- Toy primitives with shadow keys: a key handle of more than two bytes reports the public key
+of its first two bytes and decrypts nothing (`[2, 7, 9]` shadows the genuine key `[2, 7]`). -/
+def shadowPrims : Prims :=
+  { toyPrims with
+    pub := fun sk => sk.take 2
+    pkDec := fun sk ctx c => if sk.length ≤ 2 then toyPkDec sk ctx c else none
+    genuine := fun sk => decide (sk.length ≤ 2) }
 
 /-! ### the Ristretto255 scalar field ℤ/ℓ, executable (used by the driver) -/
 
